@@ -156,6 +156,7 @@ class ForecasterOnePhase:
             p0,
             bounds=bounds,
             gtol=None,  # the gradient test is absolute, so it depends on the units of production
+            x_scale="jac",  # M and tau can differ by many orders of magnitude
         )
         self.time_on_production = time_on_production
         self.cum_production = cum_production
